@@ -119,7 +119,7 @@ def strategy(tier: str):
         st.binary(max_size=40),
         st.sampled_from((b"\xff\xfe", b"\xef\xbb\xbf{}", b"\xef\xbb\xbf", b"{\"1\": \xff}", b"\x00", b"{}\x00", b"nul", b"[]", b"{\"1\":{}}", b"1", b"\"x\"", b"{\"a\":1}{}", b"  ", b"\n")),
     ).map(lambda b: {"kind": "content", "origin": "bytes", "data": b.decode("latin-1")})
-    special = st.sampled_from(("missing-empty-registry", "missing-with-registry", "empty-file", "directory", "missing-after-start", "missing-after-save", "missing-after-load", "missing-after-failed-load")).map(lambda w: {"kind": "special", "what": w})
+    special = st.sampled_from(("missing-empty-registry", "missing-with-registry", "empty-file", "directory", "missing-after-start", "missing-after-save", "missing-after-load", "missing-after-failed-load", "missing-with-odd-text")).map(lambda w: {"kind": "special", "what": w})
     return st.one_of(_mutated(), _mutated(), _mutated(), _prefix(), arbitrary_json, arbitrary_json, raw, special)
 
 
@@ -147,7 +147,7 @@ def enumerate_cases(tier: str):
         yield {"kind": "content", "origin": "deep", "data": "[" * depth}
         yield {"kind": "content", "origin": "deep", "data": '{"1":' * depth}
         yield {"kind": "content", "origin": "deep", "data": '{"1":{"node_id":1,"node_type":1,"protocol_version":"2","children":' + '{"1":' * depth}
-    for what in ("missing-empty-registry", "missing-with-registry", "empty-file", "directory", "missing-after-start", "missing-after-save", "missing-after-load", "missing-after-failed-load"):
+    for what in ("missing-empty-registry", "missing-with-registry", "empty-file", "directory", "missing-after-start", "missing-after-save", "missing-after-load", "missing-after-failed-load", "missing-with-odd-text"):
         yield {"kind": "special", "what": what}
     fixture = {"1": {"sensor_id": 1, "children": {"1": {"id": 1, "type": 38, "description": "", "values": {"49": "x"}}}, "type": 17, "sketch_name": "s", "sketch_version": "1", "battery_level": 0, "protocol_version": "2.3.2", "heartbeat": 0}}
     text = json.dumps(fixture, indent=2)
@@ -247,6 +247,9 @@ def run_case(case: dict) -> Outcome:
                 open(path, "w").close()
             elif what == "directory":
                 os.mkdir(path)
+            elif what == "missing-with-odd-text":
+                # the registry (loaded from another file, or reported by nodes) holds text that only an escaping writer can store
+                env.install_registry(gateway.nodes, {"3": {"sketch_name": "temp \udcb0C", "sketch_version": "é\ud800", "children": {"1": {"child_type": 6, "description": "日本\udfff", "values": {"0": "21\udcb0"}}}}})
             elif what == "missing-after-failed-load":
                 # the same Persistence object failed to load a damaged file; the file was removed (by the operator) since
                 env.install_registry(gateway.nodes, {"6": {"sketch_name": "kept in memory"}})
